@@ -283,7 +283,11 @@ func (mq *memtableQueue) add(vector []float32, text string, metadata map[string]
 	}
 
 	mutable := mq.mutable
-	mq.mu.Unlock()
+	// Write while still holding the queue lock: otherwise a rotation, a flush and the
+	// removal of this memtable from the queue can run between picking the memtable and
+	// writing into it (spurious "memtable is frozen" error, or a write into a memtable
+	// that has already been flushed and dropped).
+	defer mq.mu.Unlock()
 
 	return mutable.add(vector, text, metadata)
 }
@@ -298,7 +302,8 @@ func (mq *memtableQueue) addWithID(id uint32, vector []float32, text string, met
 	}
 
 	mutable := mq.mutable
-	mq.mu.Unlock()
+	// See add: the write happens under the queue lock.
+	defer mq.mu.Unlock()
 
 	return mutable.addWithID(id, vector, text, metadata)
 }
